@@ -61,7 +61,7 @@ func main() {
 		sum := pool.explore(h, parseParams(*ps), ExploreOpts{MaxPaths: *max, MaxSteps: *steps})
 		fmt.Println(sum)
 		st := pool.stats()
-		fmt.Printf("queries=%d solver=%.1fs fallbacks=%d unknowns=%d modelhits=%d steps=%d regions=%d asserts=%d/%d funcs=%d fast=%d/%d\n", st.St.Queries, st.SolverS, st.St.Fallbacks, st.St.Unknowns, st.St.ModelHits, st.St.Steps, st.St.Regions, st.St.AssertsChk, st.St.AssertsInh, len(st.Funcs), st.St.FastImplied, st.St.FastForks)
+		fmt.Printf("queries=%d solver=%.1fs fallbacks=%d unknowns=%d modelhits=%d steps=%d regions=%d asserts=%d/%d funcs=%d fast=%d/%d caphits=%d kills=%d\n", st.St.Queries, st.SolverS, st.St.Fallbacks, st.St.Unknowns, st.St.ModelHits, st.St.Steps, st.St.Regions, st.St.AssertsChk, st.St.AssertsInh, len(st.Funcs), st.St.FastImplied, st.St.FastForks, st.St.CapHits, st.St.Kills)
 	case "check":
 		os.Exit(checkMain(os.Args[2:]))
 	case "replay":
